@@ -70,13 +70,54 @@ def run_variant(v, repo=None):
         shutil.rmtree(d, ignore_errors=True)
 
 
+def run_transform(name, props):
+    """Whole-tree behaviour-preserving transformation: every check must stay silent."""
+    import glob
+    from transforms import TRANSFORMS
+    d = make_scratch()
+    bad = 0
+    try:
+        for path in sorted(glob.glob(os.path.join(d, "psutil", "*.py"))):
+            with open(path) as f:
+                src = f.read()
+            new = TRANSFORMS[name](src)
+            compile(new, path, "exec")
+            with open(path, "w") as f:
+                f.write(new)
+
+        def one(prop):
+            p = subprocess.run([os.path.join(VERIF, "check"), prop, "--repo", d],
+                               capture_output=True, text=True,
+                               env=dict(os.environ, VERIF_SELFTEST="1",
+                                        VERIF_EVIDENCE_DIR=os.path.join(d, "evidence", prop)))
+            return prop, p.returncode, p.stdout + p.stderr
+        with cf.ThreadPoolExecutor(16) as ex:
+            for prop, rc, out in ex.map(one, props):
+                if rc != 0:
+                    bad += 1
+                    print(f"[FALSE-ALARM?] transform={name} {prop} exit={rc}")
+                    print("    " + "\n    ".join(out.splitlines()[:14]))
+        print(f"transform {name}: {len(props)} checks, {bad} not silent")
+        if os.environ.get("KEEP_SCRATCH"):
+            print("kept", d)
+    finally:
+        if not os.environ.get("KEEP_SCRATCH"):
+            shutil.rmtree(d, ignore_errors=True)
+    return bad
+
+
 def main():
     ap = argparse.ArgumentParser()
+    ap.add_argument("--transform", default=None, help="alpha | reprint | all")
     ap.add_argument("props", nargs="*")
     ap.add_argument("-j", type=int, default=16)
     ap.add_argument("-k", default="")
     ap.add_argument("-v", action="store_true")
     args = ap.parse_args()
+    if args.transform:
+        props = args.props or [f"C{i:02d}" for i in range(1, 21)]
+        names = ["alpha", "reprint"] if args.transform == "all" else [args.transform]
+        return 1 if sum(run_transform(n, props) for n in names) else 0
     from variants import VARIANTS
     vs = [v for v in VARIANTS
           if (not args.props or v["prop"] in args.props) and args.k in v["name"]]
